@@ -4,21 +4,25 @@ from hutil import S, unS, enc_val, canon_floats, canon_floats_w
 import parsergen as G
 
 MODEL = "C01"
-MODEL_ENTRY = "run_C01S"        # the driver's entry for C01 (Model/Spell.v): the parse and, next to it, the line description's verdicts
+MODEL_ENTRY = "run_C01T"        # the driver's entry for C01 (Model/Spell.v): the parse and, next to it, the verdicts on the line description (command names first, when the line has one) and on the generalised description (every line)
 PROP_FILES = ["Props/C01.v"]
 RULE = ("(format, assignment, spelling): formats = 40 fixed ones + formats drawn from the seed over the quantifier's domain (0-5 "
         "options over value mode x type x nullable x short name x default none/truthy/falsy/other-typed, 0-4 arguments required/"
         "optional/multi-valued x type x nullable x default, 0-2 command names with 0-2 aliases, 0-2 base levels). For small formats "
         "(<= 2 options, <= 2 arguments, <= 1 command name) every interleaving of the option items among the positionals x every "
         "form ('--n=v', '--n v', '-nv', '-n v', bare flags) x every way of writing adjacent short options as one group x every "
-        "'--' placement x given/omitted command names spelled by name or alias, strict and lenient (capped per assignment); "
+        "'--' placement x given/omitted command names spelled by name or alias and standing anywhere among the option items, also "
+        "behind '--' (they are the first positional tokens of the line), strict and lenient (capped per assignment); "
         "seeded random spellings for larger formats, a third of them built around a group of short flags of any length with or "
-        "without a valued last member. The expected Args observation is computed from the assignment alone. Non-trivial = "
+        "without a valued last member; lines that give a valued option a command name as its value. Every case carries its "
+        "generalised line description (ld2 of Model/Spell.v), the cases with all command names in front also the older one. "
+        "The expected Args observation is computed from the assignment alone. Non-trivial = "
         ">= 1 option item and >= 1 positional; distinct by (format, mode, tokens)")
 TRUSTED = ["the expected observation is computed by an independent Python function from the assignment (oracle)"]
-ASSUMPTIONS = ["lines satisfy the side conditions of wf_line (Model/Spell.v): separated values do not start with '-' and are not empty, "
+ASSUMPTIONS = ["lines satisfy the side conditions of wf_line2 (Model/Spell.v; wf_line when the command names come first): separated values do not start with '-' and are not empty, "
                "pre-'--' positionals do not start with '-' (except '-' itself; the empty token is allowed), an omitted optional value "
-               "is not followed by a positional other than '-', an omitted command name is not followed by a positional equal to it; "
+               "is not followed by a positional other than '-', an omitted command name is not followed by a positional equal to it, no positional value "
+               "stands in front of a command name, a command name does not follow an omitted optional value; "
                "single-valued options occur once; negative argument positions are not probed (outside the model)"]
 
 EXTRA = ["zz"]
@@ -272,9 +276,11 @@ def grouped(entries, seg):
 
 
 def finish(entries):
-    """entries -> (tokens, line description of Model/Spell.v or None).  The description exists when the command-name
-    spellings come first (no option in front of one, none after '--')."""
+    """entries -> (tokens, line description of Model/Spell.v or None, generalised line description).  The description [ld]
+    exists when the command-name spellings come first (no option in front of one, none after '--'); the generalised one
+    [ld2] (a spelling is an item of its own, '--' is followed by spellings and then values) exists for every line."""
     toks, names, d_items, d_tail, d_ok = [], [], [], None, True
+    g_items, g_tail = [], None
     seen_other = False
     for e in entries:
         if e[0] == "n":
@@ -282,22 +288,31 @@ def finish(entries):
             names.append(S(e[1]))
             if seen_other:
                 d_ok = False
+            if g_tail is not None:
+                g_tail[0].append(S(e[1]))
+            else:
+                g_items.append([5, S(e[1])])
         elif e[0] == "dd":
             toks.append("--")
             d_tail = []
+            g_tail = [[], []]
             seen_other = True
         elif e[0] == "p":
             toks.append(e[1])
             seen_other = True
             if d_tail is not None:
                 d_tail.append(S(e[1]))
+                g_tail[1].append(S(e[1]))
             else:
                 d_items.append([4, S(e[1])])
+                g_items.append([4, S(e[1])])
         else:
             toks.extend(e[1])
             d_items.append(e[2])
+            g_items.append(e[2])
             seen_other = True
-    return toks, ([names, d_items, [] if d_tail is None else [d_tail]] if d_ok else None)
+    return (toks, ([names, d_items, [] if d_tail is None else [d_tail]] if d_ok else None),
+            [g_items, [] if g_tail is None else [g_tail]])
 
 
 def spell_all(levels, asg, rng=None, limit=None, group_bias=0.0):
@@ -533,12 +548,12 @@ def gen(rng, tier, info):
     per_asg = {"quick": 500, "thorough": 4000, "search": 100}[tier]
     r_small, r_large = random_formats(rng, tier)
 
-    def add(fkey, fref, t, dsc, lenient, asg):
+    def add(fkey, fref, t, dsc, dsc2, lenient, asg):
         key = (fkey, lenient, tuple(t))
         if key in seen:
             return False
         seen.add(key)
-        c = {"len": lenient, "toks": t, "asg": asg, "ld": dsc}
+        c = {"len": lenient, "toks": t, "asg": asg, "ld": dsc, "ld2": dsc2}
         c.update(fref)
         cases.append(c)
         return True
@@ -549,9 +564,9 @@ def gen(rng, tier, info):
     for fkey, fref, levels, na in small:
         for asg in assignments(levels, rng, na):
             for entries in spell_all(levels, asg, rng, limit=per_asg if isinstance(fkey, int) else per_asg // 2):
-                for t, dsc in variants(entries):
+                for t, dsc, dsc2 in variants(entries):
                     for lenient in (0, 1):
-                        if add(fkey, fref, t, dsc, lenient, asg):
+                        if add(fkey, fref, t, dsc, dsc2, lenient, asg):
                             per_fmt[fkey] = per_fmt.get(fkey, 0) + 1
     n_small = len(cases)
     # larger formats: sampled spellings, a third of them built around a group of short options
@@ -562,8 +577,8 @@ def gen(rng, tier, info):
         for asg in assignments(levels, rng, na, max_multi=3):
             for entries in spell_all(levels, asg, rng, limit=max(4, n_rand // (5 * max(2, n_asg // 2))) if isinstance(fkey, int) else max(4, 2 * n_rand // (len(r_large) * na)),
                                      group_bias=0.35):
-                for t, dsc in variants(entries, rng, max_groups=3):
-                    add(fkey, fref, t, dsc, rng.randint(0, 1), asg)
+                for t, dsc, dsc2 in variants(entries, rng, max_groups=3):
+                    add(fkey, fref, t, dsc, dsc2, rng.randint(0, 1), asg)
     if len(cases) > cap:
         head = cases[:n_small]
         if len(head) > cap * 3 // 4:
@@ -571,6 +586,23 @@ def gen(rng, tier, info):
         tail = cases[n_small:]
         cases = head + tail[:cap - len(head)]
     info["exhaustive"] = len(cases) <= cap
+    # (fourth session) an option value that equals a command name or an alias, the command names anywhere on the line: a
+    # separately written value is consumed by the option and is never taken for the command name ('--tag add add h')
+    n_main = len(cases)
+    for fkey, fref, levels in [(k, r, lv) for (k, r, lv, _) in small] + large:
+        cns = G.fmt_cnames(levels)
+        vopts = [o for o in G.fmt_options(levels) if okind(o) in ("req", "multi", "opt") and otype(o) == "str"]
+        if not cns or not vopts:
+            continue
+        for asg in assignments(levels, rng, {"quick": 2, "thorough": 6, "search": 1}[tier]):
+            o = rng.choice(vopts)
+            cn = rng.choice(cns)
+            nm = rng.choice([cn["name"]] + cn["aliases"])
+            asg["opts"][o["long"]] = [nm] * rng.randint(1, 2) if okind(o) == "multi" else nm
+            for entries in spell_all(levels, asg, rng, limit={"quick": 16, "thorough": 60, "search": 6}[tier], group_bias=0.2):
+                for t, dsc, dsc2 in variants(entries, rng, max_groups=2):
+                    add(fkey, fref, t, dsc, dsc2, rng.randint(0, 1), asg)
+    n_namevalued = len(cases) - n_main
 
     def gshape(c):
         """(letters in the group, how the last member is written) of the longest group of the line"""
@@ -594,6 +626,10 @@ def gen(rng, tier, info):
                             "spellings_small": n_small, "total": len(cases),
                             "cases_over_generated_formats": sum(1 for c in cases if "lv" in c),
                             "with_line_description (theorem domain: command names first)": sum(1 for c in cases if c.get("ld")),
+                            "with_generalised_line_description (domain of parse_spells_interleaved)": sum(1 for c in cases if c.get("ld2")),
+                            "generalised_only (an option or '--' in front of a command name)": sum(1 for c in cases if c.get("ld2") and not c.get("ld")),
+                            "option_value_equal_to_a_command_name": n_namevalued,
+                            "generalised_only_name_after_dd": sum(1 for c in cases if c.get("ld2") and not c.get("ld") and c["ld2"][1] and c["ld2"][1][0][0]),
                             "grouped_short_option_descriptions": sum(gh.values()),
                             "groups_by_shape": dict(sorted(gh.items())),
                             "per_small_format": {str(k): v for k, v in sorted(per_fmt.items(), key=lambda kv: str(kv[0]))}}
@@ -602,7 +638,7 @@ def gen(rng, tier, info):
 
 def wire(c):
     return [G.wire_levels(G.case_levels(c)), c["len"], [S(t) for t in c["toks"]], [S(x) for x in EXTRA],
-            [c["ld"]] if c.get("ld") else []]
+            [c["ld"]] if c.get("ld") else [], [c["ld2"]] if c.get("ld2") else []]
 
 
 def describe(c):
@@ -619,10 +655,14 @@ def run_impl(c):
 def canon_impl(c, o):
     # next to the parse result: what the model must answer for the line description - the format is fmt_ok, the line is
     # wf_line, render gives exactly these tokens, denote gives exactly what the implementation parsed
+    # - and the same four answers (fmt_ok, wf_line2, render2, denote2) for the generalised description, which every line has
     o = canon_floats(o)
-    if c.get("ld") and o[0] == 0:
-        return [o, [[1, 1, [S(t) for t in c["toks"]], o[1]]]]
-    return [o, [[-7]] if c.get("ld") else []]
+
+    def verdicts(dsc):
+        if dsc and o[0] == 0:
+            return [[1, 1, [S(t) for t in c["toks"]], o[1]]]
+        return [[-7]] if dsc else []
+    return [o, verdicts(c.get("ld")), verdicts(c.get("ld2"))]
 
 
 def canon_model_w(c, w):
